@@ -566,6 +566,9 @@ type FW struct {
 	Timeout    int  `json:"timeout"` // 0 = Wait (or WaitContext without deadline), else WaitContext whose context ends that much later
 	Plain      bool `json:"plain,omitempty"`
 	CancelOnly bool `json:"cancel_only,omitempty"` // the context has no deadline: it is cancelled explicitly after Timeout
+	// Late: the context (with its deadline) is made first and WaitContext is only called at the very instant the
+	// deadline passes - when the clock says "past the deadline" but the context may not have noticed yet
+	Late bool `json:"late,omitempty"`
 }
 
 func genF(t *rapid.T) FPlan {
@@ -573,7 +576,7 @@ func genF(t *rapid.T) FPlan {
 		VType: rapid.SampledFrom([]string{"", "", "int0", "any-nil", "error-nil", "ptr-nil", "any-int"}).Draw(t, "vtype")}
 	for n := rapid.IntRange(1, 6).Draw(t, "n"); n > 0; n-- {
 		p.Waiters = append(p.Waiters, FW{StartMs: rapid.SampledFrom([]int{0, 5, 10, 15, 30}).Draw(t, "start"),
-			Timeout: rapid.SampledFrom([]int{0, 0, 3, 10, 50}).Draw(t, "timeout"), Plain: rapid.Bool().Draw(t, "plain"), CancelOnly: rapid.Bool().Draw(t, "cancelonly")})
+			Timeout: rapid.SampledFrom([]int{0, 0, 3, 10, 50}).Draw(t, "timeout"), Plain: rapid.Bool().Draw(t, "plain"), CancelOnly: rapid.Bool().Draw(t, "cancelonly"), Late: rapid.IntRange(0, 3).Draw(t, "late") == 0})
 	}
 	return p
 }
@@ -616,6 +619,9 @@ func runFT[T comparable](p FPlan, val T) (vk.Outcome, error) {
 					cancel := func() {}
 					if wt.Timeout > 0 && !wt.CancelOnly {
 						ctx, cancel = sk.WithTimeout(ctx, time.Duration(wt.Timeout)*time.Millisecond)
+						if wt.Late {
+							time.Sleep(time.Duration(wt.Timeout) * time.Millisecond)
+						}
 					} else if wt.Timeout > 0 {
 						var c context.CancelFunc
 						ctx, c = sk.WithCancel(ctx)
@@ -627,6 +633,11 @@ func runFT[T comparable](p FPlan, val T) (vk.Outcome, error) {
 				}
 				at := int(time.Since(start) / time.Millisecond)
 				deadline := wt.StartMs + wt.Timeout
+				callAt := wt.StartMs
+				late := wt.Late && wt.Timeout > 0 && !wt.CancelOnly && !(wt.Timeout == 0 && wt.Plain)
+				if late {
+					callAt = deadline // (then both the value and the ended context may be ready at the call: either answer is right)
+				}
 				switch {
 				case err == nil:
 					if wt.Timeout > 0 && deadline < p.FillAt {
@@ -635,14 +646,14 @@ func runFT[T comparable](p FPlan, val T) (vk.Outcome, error) {
 						errs[i] = vk.Violf("future-value", "waiter %d got %v, filled with %v", i, v, val)
 					} else if at < p.FillAt {
 						errs[i] = vk.Violf("future-early", "waiter %d returned at %dms, Fill is at %dms", i, at, p.FillAt)
-					} else if want := max(wt.StartMs, p.FillAt); at != want {
+					} else if want := max(callAt, p.FillAt); at != want {
 						errs[i] = vk.Violf("future-late", "waiter %d returned at %dms, want %dms", i, at, want)
 					}
 				case wt.Timeout > 0 && (errors.Is(err, context.DeadlineExceeded) || (wt.CancelOnly && errors.Is(err, context.Canceled))):
-					if at != deadline || deadline > p.FillAt && wt.StartMs >= p.FillAt {
+					if at != deadline || deadline > p.FillAt && wt.StartMs >= p.FillAt && !late {
 						errs[i] = vk.Violf("future-ctx", "waiter %d gave up at %dms (deadline %dms, Fill at %dms)", i, at, deadline, p.FillAt)
 					}
-					if deadline > p.FillAt {
+					if deadline > p.FillAt && !late {
 						errs[i] = vk.Violf("future-ctx", "waiter %d returned the context error although the future was filled at %dms before its deadline %dms", i, p.FillAt, deadline)
 					}
 				default:
@@ -907,12 +918,12 @@ type SyncStormPlan struct {
 }
 
 func genSyncStorm(t *rapid.T) SyncStormPlan {
-	p := SyncStormPlan{Mode: rapid.SampledFrom([]string{"loadorstore", "loadanddelete", "watchable", "watchable"}).Draw(t, "mode")}
+	p := SyncStormPlan{Mode: rapid.SampledFrom([]string{"loadorstore", "loadanddelete", "nomatch", "watchable", "watchable"}).Draw(t, "mode")}
 	p.Setters = 1
 	if p.Mode == "watchable" {
 		p.Setters = rapid.SampledFrom([]int{1, 2, 3}).Draw(t, "setters")
 	}
-	if p.Mode == "loadorstore" || p.Mode == "loadanddelete" {
+	if p.Mode == "loadorstore" || p.Mode == "loadanddelete" || p.Mode == "nomatch" {
 		p.Parties, p.Rounds = rapid.IntRange(3, 6).Draw(t, "parties"), rapid.IntRange(500, 2000).Draw(t, "rounds")
 	} else {
 		p.Parties, p.Rounds, p.Sets = rapid.IntRange(1, 3).Draw(t, "observers"), rapid.IntRange(2, 6).Draw(t, "rounds"), rapid.IntRange(300, 2000).Draw(t, "sets")
@@ -1035,6 +1046,53 @@ func runLoadAndDeleteStorm(p SyncStormPlan) (vk.Outcome, error) {
 	return out, nil
 }
 
+// runNoMatchStorm: goroutines hammer one present key with operations that must leave it alone because their
+// `old` argument does not match (CompareAndDelete, CompareAndSwap) while others read it. A reader never sees
+// the key absent or holding anything but the one value it has had all along.
+func runNoMatchStorm(p SyncStormPlan) (vk.Outcome, error) {
+	var out vk.Outcome
+	var m xsync.Map[int, int]
+	m.Store(7, 1000)
+	var stop atomic.Bool
+	var wg sync.WaitGroup
+	errs := make([]error, p.Parties)
+	for g := 0; g < p.Parties; g++ {
+		wg.Add(1)
+		go func(g int) {
+			defer wg.Done()
+			for i := 0; !stop.Load() && i < p.Rounds*40; i++ {
+				switch {
+				case g == 0:
+					if m.CompareAndDelete(7, 999) {
+						errs[g] = vk.Violf("map-flag", "CompareAndDelete(7, 999) reported a deletion although the key holds 1000")
+						return
+					}
+				case g == 1:
+					if m.CompareAndSwap(7, 999, 5) {
+						errs[g] = vk.Violf("map-flag", "CompareAndSwap(7, 999, 5) reported a swap although the key holds 1000")
+						return
+					}
+				default:
+					if v, ok := m.Load(7); !ok || v != 1000 {
+						errs[g] = vk.Violf("map-value", "a reader saw (%d, %v) for a key that holds 1000 throughout: the only writers are CompareAndDelete / CompareAndSwap calls whose old value does not match", v, ok)
+						return
+					}
+				}
+			}
+		}(g)
+	}
+	wg.Wait()
+	stop.Store(true)
+	for _, e := range errs {
+		if e != nil {
+			return out, e
+		}
+	}
+	out.NonTrivial, out.Execs = true, p.Rounds*40
+	out.Label("storm:nomatch")
+	return out, nil
+}
+
 // runWatchableStorm: one setter issues Sets back to back while observers run the documented loop
 // (Value; wait for the channel; Value; ...). Values never go backwards for an observer, a channel is
 // always paired with the same value, and once the setter is done every observer arrives at the final
@@ -1134,6 +1192,9 @@ func TestSyncStorm(t *testing.T) {
 		}
 		if p.Mode == "loadanddelete" {
 			return runLoadAndDeleteStorm(p)
+		}
+		if p.Mode == "nomatch" {
+			return runNoMatchStorm(p)
 		}
 		return runWatchableStorm(p)
 	})
